@@ -14,6 +14,7 @@
 import ZlModel.Basic
 import ZlModel.Thresholds
 import ZlModel.Rsa
+import ZlModel.Names
 namespace Zl.LL
 
 abbrev Oid := List Nat
@@ -54,6 +55,9 @@ inductive SPred
   | runesCmp (c : Cmp) (k : Int)    -- utf8.RuneCountInString(s) OP k
   | ext (id : Nat)                  -- an external predicate of the environment
   | proj (id : Nat) (p : SPred)     -- p on an external projection of the string; false when the projection failed
+  | anyLabel (p : SPred)            -- some element of strings.Split(s, ".") satisfies p
+  | firstLabel (p : SPred)          -- p on strings.Split(s, ".")[0] (Split never returns an empty slice)
+  | restLabels (p : SPred)          -- some element of strings.Split(s, ".")[1:] satisfies p
   | not (p : SPred)
   | and (p q : SPred)
   | or (p q : SPred)
@@ -70,6 +74,11 @@ def SPred.eval (env : Env) : SPred → Bytes → Bool
   | .proj id p, s => match env.fn id s with
     | some t => p.eval env t
     | none => false
+  | .anyLabel p, s => (Names.splitDot s).any (fun l => p.eval env l)
+  | .firstLabel p, s => match Names.splitDot s with
+    | l :: _ => p.eval env l
+    | [] => false
+  | .restLabels p, s => ((Names.splitDot s).drop 1).any (fun l => p.eval env l)
   | .not p, s => !(p.eval env s)
   | .and p q, s => p.eval env s && q.eval env s
   | .or p q, s => p.eval env s || q.eval env s
